@@ -369,6 +369,22 @@ def c20_large(ctx, case):
     check_object(ctx, w, name, N)
 
 
+LARGE_GRID = [600, 1000, 1024, 2047, 2048, 3000, 3144, 4096, 4097, 6285, 8191, 8192, 10000, 12289, 16383, 16384]
+
+
+def enum_large(tier):
+    for N in LARGE_GRID:
+        for name in NAMES:
+            yield {"name": name, "N": N}
+
+
+@sub("C20.large_grid", enum=enum_large, exhaustive=True, shards_quick=4, shards_thorough=4,
+     doc="the same clauses for every name at a fixed grid of 16 large lengths (600 .. 16384, both parities): the sampled sub-check "
+         "C20.large reaches a given (name, N > 3000) only now and then")
+def c20_large_grid(ctx, case):
+    c20_large(ctx, case)
+
+
 # --------------------------------------------------------------------------
 # shape parameters
 # --------------------------------------------------------------------------
